@@ -88,6 +88,24 @@ def script_standing_backlog(rng, kinds, n, rate):
     return {"members": members, "steps": steps, "watch": 120000, "settle": 5, "nowire": True}
 
 
+def script_slow_feedback(rng, kinds, n):
+    """A slow RTCP transport (4 ms per write, one write at a time) under steady traffic: an interceptor that reports every
+    millisecond gets back pressure from its writer - what it holds for reports that have not gone out yet must not grow
+    with the number of packets (one pending report per bound writer, not one per tick)."""
+    members = [{"k": k, "o": {"ivl": 1, "size": 512}} for k in kinds]
+    steps = [{"a": "heap", "ms": 20, "kind": "base"}, {"a": "bindw"}, {"a": "bindr"},
+             {"a": "bindm", "s": 2, "nack": True, "twcc": 7, "pli": False},
+             {"a": "wait", "ms": 0, "kind": "slow-feedback"}, {"a": "sloww", "ms": 4}]
+    w = 0
+    for ph in range(4):
+        steps.append({"a": "par", "par": [{"a": "rrtp", "s": 2, "w": w % 65536, "id": 1, "len": 100, "shape": 0, "tw": w % 65536,
+                                           "fail": False, "rep": n, "inc": 1, "gap": 1000}]})
+        steps.append({"a": "heap", "ms": 5, "kind": "phase"})
+        w += n
+    steps += [{"a": "sloww", "ms": 0}, {"a": "unbindm", "s": 2}, {"a": "close"}, {"a": "heap", "ms": 50, "kind": "final", "id": n}]
+    return {"members": members, "steps": steps, "watch": 120000, "settle": 5, "nowire": True}
+
+
 def script(rng, kinds, workload, feedback, n, timed, failing=False):
     members = [{"k": k, "o": {"ivl": 1, "size": 512, "k": 5, "n": 2, "rate": 80_000_000}} for k in kinds]
     twcc = 0
@@ -207,6 +225,8 @@ def run(ctx):
         scripts.append(script_rtcp(rng, [k], 20000 if ctx.quick else 200000))
     for k in ("pacing", "ccleaky", "nackresp", "flexfec"):      # steady traffic next to a stream whose transport keeps failing
         scripts.append(script(rng, [k], "inorder", True, 2000 if ctx.quick else n, k in TIMED, failing=True))
+    for k in ("twccsend", "rfc8888", "rrecv", "nackgen"):       # periodic reports into a slow transport
+        scripts.append(script_slow_feedback(rng, [k], 300 if ctx.quick else 1500))
     for k in ("pacing", "ccleaky"):                             # a pacer working against a small standing backlog
         scripts.append(script_standing_backlog(rng, [k], 6000 if ctx.quick else 24000, 20_000_000))
     for k in ("rrecv", "rsend", "nackgen", "nackresp", "twccsend", "pli", "flexfec", "pdrecv", "twcchdr", "rtpfb"):
